@@ -367,6 +367,13 @@ def cases(tier):
             out.append({"kind": "step", "name": "step/%s/%s" % (op, tgt), "op": op, "target": tgt})
     for members in (["S"], ["B"], ["B", "V"], ["F"], ["B", "V", "S"], ["S", "F"]):
         out.append({"kind": "oppair", "name": "op/" + "+".join(members), "arrays": members})
+    from . import C05
+
+    # auxiliary array inputs (index arrays, where= masks, conditions, label arrays) of every C02 operation, written to by the caller
+    # after the forward call: the guard refuses the write, or the write cannot reach the gradients (decided by z3 for all operand values)
+    for c in C05.auxsweep_cases(tier, "raw", prefix="aux"):
+        for i in range(0, len(c["opsweep"]), 4):  # (small chunks: every listed known finding is confirmed by a replay in a child process)
+            out.append({"kind": "aux", "name": "%s.%d" % (c["name"], i), "opsweep": c["opsweep"][i:i + 4]})
     progs = programs(tier)
     size = 400
     for i in range(0, len(progs), size):
@@ -380,6 +387,10 @@ def run_case(spec, tier):
         return run_step(spec, tier)
     if spec["kind"] == "oppair":
         return run_oppair(spec, tier)
+    if spec["kind"] == "aux":
+        from . import C05
+
+        return C05.run_opsweep(spec, tier, mg, PROP=PROP)
     res = common.new_result()
     n = 0
     confirmed = set()
